@@ -160,9 +160,10 @@ def rule_vi2(A: Analysis, rep, Q=None):
     ok = False
     if len(cons) == 1:
         b = A.bind_args(cons[0], A.fn("execution.version_index.Version.__init__"))
-        row = vf.params[1]
-        ok = norm(b.get("timestamp", ast.Constant(0))) == "%s[0]" % row and norm(b.get("commit_hash", ast.Constant(0))) == "%s[1]" % row and \
-            norm(b.get("has_uncommitted_changes", ast.Constant(0))) in ("False if %s[2] == 0 else True" % row, "%s[2] != 0" % row, "bool(%s[2])" % row)
+        row = [p_ for p_ in vf.params if p_ not in ("self", "cls")][0]
+        tx = lambda k: A.xtext(b.get(k, ast.Constant(0)), vf)
+        ok = tx("timestamp") == "%s[0]" % row and tx("commit_hash") == "%s[1]" % row and \
+            tx("has_uncommitted_changes") in ("False if %s[2] == 0 else True" % row, "%s[2] != 0" % row, "bool(%s[2])" % row, "not %s[2] == 0" % row)
     rep.check(ok, "VI2", "row → Version field order", vf.node, "row[0]=timestamp, row[1]=commit hash, row[2]=dirty flag", "_version_from_row maps the columns differently")
     # consumers
     consumers = {"get_latest_output_version": ("latest_task_version", "row"),
@@ -524,10 +525,16 @@ def rule_vi1(A: Analysis, rep):
                     raw.add("%s:%s" % (f.name, c.func.attr))
     rep.check(raw == {"create_or_load:commit", "commit_changes:commit", "rollback_changes:rollback", "_run_v1_to_v2_migration:commit", "_run_v1_to_v2_migration:rollback"},
               "VI1", "raw commit/rollback sites", None, "", "raw sqlite commit/rollback sites: %s" % sorted(raw))
-    cm = A.fn(VI + "commit_changes")
-    ok = any(isinstance(s, ast.Expr) and norm(s.value) == "self._conn.commit()" for s in cm.node.body)
-    rep.check(ok, "VI1", "commit_changes commits", cm.node, "", "commit_changes() no longer commits the connection")
-    rb = A.fn(VI + "rollback_changes")
-    ok = any(isinstance(s, ast.Expr) and norm(s.value) == "self._conn.rollback()" for s in rb.node.body)
-    rep.check(ok, "VI1", "rollback_changes rolls back", rb.node, "", "rollback_changes() no longer rolls the connection back")
+    # commit_changes()/rollback_changes(): the connection call is reached on every path on which a transaction is open
+    for fname, meth, what in (("commit_changes", "commit", "commits"), ("rollback_changes", "rollback", "rolls back")):
+        cm = A.fn(VI + fname)
+        g = A.cfg(cm, "plain")
+        cn = [n for n in g.nodes if n.kind == "stmt" and isinstance(n.ast, ast.Expr) and norm(n.ast.value) == "self._conn.%s()" % meth]
+        ok = len(cn) == 1
+        if ok:
+            # the only way around the call is the "no transaction open" edge
+            no_tx = A.edges_implying(g, cm, "t(self._conn.in_transaction)", False)
+            r = g.reach([g.entry], removed=cn, skip_labels=is_exc, removed_edges=no_tx)
+            ok = g.exit not in r
+        rep.check(ok, "VI1", "%s %s" % (fname, what), cm.node, "", "%s() no longer %s the connection whenever a transaction is open" % (fname, what.replace("s ", " ").rstrip("s") if False else what))
     rep.expect_min("VI1", 7)
